@@ -43,6 +43,21 @@ FMT = ('%(payee)|%(display_account)|%(calculated)|%(cost_calculated)|%(actual)|%
 
 
 # ---------------------------------------------------------------------------- predicates
+def ws(rng):
+    """the blank between two words of a rule's predicate: the header of an automated transaction is handed to the query
+    lexer as ONE string, which separates words at blanks and TABs alike"""
+    return ' ' if rng.random() < 0.6 else rng.choice(['\t', '  ', ' \t', '\t\t', '\t '])
+
+
+def hard_sep(rng):
+    """between an account name and the amount: two blanks or a TAB end the account name (next_element)"""
+    return '    ' if rng.random() < 0.6 else rng.choice(['  ', '\t', ' \t', '\t\t', '   \t '])
+
+
+def lead_ws(rng):
+    return '    ' if rng.random() < 0.7 else rng.choice(['\t', ' ', '  \t'])
+
+
 class Pred:
     def __init__(self, op, *args):
         self.op, self.args = op, args
@@ -85,13 +100,12 @@ class Pred:
         if o == 'acct':
             return '/%s/' % self.args[0]
         if o == 'payee':
-            return rng.choice(['@%s', 'payee %s', '@/%s/']) % self.args[0]
+            return rng.choice(['@%s', 'payee' + ws(rng) + '%s', '@/%s/']) % self.args[0]
         if o == 'not':
             a = self.args[0]
-            return 'not ' + (a.query_text(rng, False) if a.atom() else '(%s)' % a.query_text(rng, False))
-        w = ' and ' if o == 'and' else ' or '
+            return 'not' + ws(rng) + (a.query_text(rng, False) if a.atom() else '(%s)' % a.query_text(rng, False))
         parts = [(a.query_text(rng, False) if (a.atom() or a.op == 'not') else '(%s)' % a.query_text(rng, False)) for a in self.args]
-        return w.join(parts)
+        return parts[0] + ''.join(ws(rng) + ('and' if o == 'and' else 'or') + ws(rng) + q for q in parts[1:])
 
     # the oracle's reading of the predicate: True / False / None (not determined by the text)
     def holds(self, payee, acct, sym, val):
@@ -182,9 +196,10 @@ class Line:
     def text(self):
         a = {'R': '%s', 'V': '(%s)', 'B': '[%s]'}[self.kind] % self.acct
         mark = {0: '', 1: '* ', 2: '! '}[self.state]
+        lead, sep = getattr(self, 'lead', '    '), getattr(self, 'sep', '    ')
         if self.amt is None:
-            return '    %s%s' % (mark, a)
-        return '    %s%s    %s' % (mark, a, self.amt.text())
+            return '%s%s%s' % (lead, mark, a)
+        return '%s%s%s%s%s' % (lead, mark, a, sep, self.amt.text())
 
     def sx(self):
         return ['line', self.acct.encode(), self.kind, self.amt.sx() if self.amt else '-', self.state]
@@ -195,7 +210,7 @@ class Rule:
         self.pred, self.lines, self.syntax = pred, lines, syntax     # syntax: the text after `= `
 
     def text(self):
-        return '= %s\n%s\n' % (self.syntax, '\n'.join(l.text() for l in self.lines))
+        return '=%s%s\n%s\n' % (getattr(self, 'lead', ' '), self.syntax, '\n'.join(l.text() for l in self.lines))
 
     def sx(self):
         return ['rule', self.pred.sx()] + [l.sx() for l in self.lines]
@@ -318,16 +333,22 @@ def gen_rule(rng):
     r = rng.random()
     if r < 0.35:
         p = Pred('acct', rng.choice(APATS))
-        syn = rng.choice(['/%s/', '/%s/', '%s', 'expr account =~ /%s/']) % p.args[0]
+        syn = rng.choice(['/%s/', '/%s/', '%s', 'expr' + ws(rng) + 'account =~ /%s/']) % p.args[0]
     elif r < 0.55:
         p = gen_chain(rng, 2, allow_amount=False, atom_first=False)
         syn = p.query_text(rng)
     else:
         p = gen_chain(rng, 2)
-        syn = 'expr ' + p.expr_text()
+        syn = 'expr' + ws(rng) + p.expr_text()
+        if rng.random() < 0.3:                     # inside the expression blanks and TABs are the expression parser's business
+            syn = syn.replace(' & ', rng.choice(['\t&\t', ' &\t', '  & '])).replace(' | ', rng.choice(['\t|\t', '\t| ', ' |  ']))
     lines, shape = gen_lines(rng)
     rule = Rule(p, lines, syn)
     rule.shape = shape
+    rule.lead = rng.choice([' ', ' ', ' ', '\t', '  ', ' \t'])
+    if rng.random() < 0.35:
+        for l in lines:
+            l.lead, l.sep = lead_ws(rng), hard_sep(rng)
     return rule
 
 
@@ -339,7 +360,7 @@ class Txn(X.Xact):
 
     def text(self, i):
         mark = {0: '', 1: '* ', 2: '! '}[self.state]
-        return '\n'.join(['%s %sx%d' % (self.date, mark, i)] + [p.text() for p in self.posts]) + '\n'
+        return '\n'.join(['%s %sx%d' % (self.date, mark, i)] + [q.text() for q in self.posts]) + '\n'
 
     def sx_i(self, i):
         return ['xact', ('x%d' % i).encode(), self.state] + [p.sx() for p in self.posts]
@@ -408,6 +429,9 @@ def gen_txn(rng):
         rng.shuffle(posts)
     t = Txn(posts, '2020/%02d/%02d' % (rng.randrange(1, 13), rng.randrange(1, 29)), rng.choice([0, 0, 0, 1, 1, 2]))
     t.shape = shape
+    if rng.random() < 0.2:
+        for q in posts:
+            q.indent, q.sep = lead_ws(rng), hard_sep(rng)          # xactlib.Post writes its line with these
     return t
 
 
@@ -590,7 +614,7 @@ def journal_sx(jid, items):
         else:
             x = it.sx_i(i)
             for k, f in enumerate(nm):
-                x[3 + k] = list(x[3 + k])
+                x[3 + k] = list(x[3 + k])[:6]            # without xactlib's written-line field (C01's line model)
                 x[3 + k][1] = f.encode()
             sxs.append(x)
             i += 1
@@ -628,11 +652,12 @@ def items_spec(items):
         if isinstance(it, Scope):
             out.append(dict(scope=it.kind, name=it.name, target=it.target))
         elif isinstance(it, Rule):
-            out.append(dict(rule=pred_spec(it.pred), syntax=it.syntax, shape=getattr(it, 'shape', '?'),
-                            lines=[[l.acct, l.kind, amt_spec(l.amt), l.state] for l in it.lines]))
+            out.append(dict(rule=pred_spec(it.pred), syntax=it.syntax, shape=getattr(it, 'shape', '?'), lead=getattr(it, 'lead', ' '),
+                            lines=[[l.acct, l.kind, amt_spec(l.amt), l.state, getattr(l, 'lead', '    '), getattr(l, 'sep', '    ')] for l in it.lines]))
         else:
             out.append(dict(date=it.date, state=it.state, shape=getattr(it, 'shape', '?'),
-                            posts=[[q.acct, q.kind, amt_spec(q.amt), [q.cost[0], amt_spec(q.cost[1])] if q.cost else None] for q in it.posts]))
+                            posts=[[q.acct, q.kind, amt_spec(q.amt), [q.cost[0], amt_spec(q.cost[1])] if q.cost else None,
+                                    getattr(q, 'indent', '    '), getattr(q, 'sep', None)] for q in it.posts]))
     return out
 
 
@@ -643,11 +668,18 @@ def items_unspec(spec):
             items.append(Scope(d['scope'], d.get('name'), d.get('target')))
         elif 'rule' in d:
             r = Rule(pred_unspec(d['rule']), [Line(l[0], l[1], amt_unspec(l[2]), l[3]) for l in d['lines']], d['syntax'])
+            for l, ld in zip(r.lines, d['lines']):
+                if len(ld) > 5:
+                    l.lead, l.sep = ld[4], ld[5]
+            r.lead = d.get('lead', ' ')
             r.shape = d.get('shape', '?')
             items.append(r)
         else:
             t = Txn([X.Post(q[0], q[1], amt_unspec(q[2]), (q[3][0], amt_unspec(q[3][1])) if q[3] else None) for q in d['posts']],
                     d['date'], d['state'])
+            for q, qd in zip(t.posts, d['posts']):
+                if len(qd) > 5:
+                    q.indent, q.sep = qd[4], qd[5]
             t.shape = d.get('shape', '?')
             items.append(t)
     return items
@@ -1069,6 +1101,18 @@ def fixed_journals():
     js.append([Scope('master', 'M'), teach(), ap(), rl(), food(10), en(), rl(), food(20)])      # with --master-account
     js.append([teach(), Scope('alias', 'Budget', 'Assets:Reserve:Budget'), ap(), rl(), food(10), en()])
     js.append([teach(), ap(), Scope('alias', 'Envelope', 'Env'), rl(), en(), food(10)])
+    # the words of a predicate separated by TABs (the header is ONE string for the query lexer), TABs in rule lines
+    for syn, pr in (('Expenses:Food\tor\tExpenses:Rent', Pred('or', Pred('acct', 'Expenses:Food'), Pred('acct', 'Expenses:Rent'))),
+                    ('/Food/\tor\t/Rent/', Pred('or', Pred('acct', 'Food'), Pred('acct', 'Rent'))),
+                    ('Expenses\tand\tnot\tRent', Pred('and', Pred('acct', 'Expenses'), Pred('not', Pred('acct', 'Rent')))),
+                    ('expr\tamount > 15', Pred('gt', A(F(15), 0, None))),
+                    ('payee\tx2 or\t@x3', Pred('or', Pred('payee', 'x2'), Pred('payee', 'x3'))),
+                    ('Food \t and  Expenses', Pred('and', Pred('acct', 'Food'), Pred('acct', 'Expenses')))):
+        rr = Rule(pr, [Line('Budget:Meals', 'V', mult(('-1', 0)))], syn)
+        rr.shape = 'fixed-tabs'
+        rr.lines[0].lead, rr.lines[0].sep = '\t', '\t'
+        js.append([teach(), rr, food(10), food(20),
+                   Txn([P('Expenses:Rent', 'R', A(F(30), 2, '$')), P('Assets:Cash', 'R', A(F(-30), 2, '$'))], '2020/04/01')])
     for jn in js:
         for it in jn:
             if isinstance(it, Txn) and not hasattr(it, 'shape'):
@@ -1082,13 +1126,13 @@ def run(ctx, n_override=None):
     res.rule = ('journals interleaving 0-4 rules (account / payee substring predicates in query and expr syntax, amount comparisons, '
                 '! & | combinations; 1-4 lines: multipliers with 0-8 decimals incl. 0 and negative, fixed amounts, real / (virtual) / '
                 '[balanced] lines, state marks; balancing pairs, virtual-only, deliberately unbalancing, a line without amount; a family mixing real / [balanced] / (virtual) lines in every order whose must-balance lines sum to zero or miss it by a small residue, a missing counter-line or a counter-line in another commodity) with 1-30 '
-                'transactions (plain, elided incl. two commodities, virtual, cost, unbalanced; cleared/pending), `apply account` '
+                'transactions; blanks, TABs and runs of both between the words of a predicate, before and after the amounts; transactions (plain, elided incl. two commodities, virtual, cost, unbalanced; cleared/pending), `apply account` '
                 'blocks around arbitrary stretches of the file (rules only, transactions only, both, nested once, rule inside and match '
                 'outside and the reverse), --master-account, alias directives; after a transaction '
                 'teaching each commodity its decimals; rules before, between and after the transactions; non-trivial = at least one rule '
                 'precedes the transaction and the text requires at least one generated posting; distinct by transaction text + the '
                 'rules before it')
-    n = n_override or ctx.scale(800, 5000)
+    n = n_override or ctx.scale(600, 5000)
     jobs = []
     for k, items in enumerate(fixed_journals()):
         jobs.append(items)
